@@ -228,7 +228,10 @@ class OverridableProbe(Probe):
     """
 
     def _make_rule(self, sel, probe_type):
-        if probe_type != "total" and (sel.focus or probe_type == "immediate"):
+        if not sel.focus:
+            # It is the focus variable that is overridden
+            raise Exception("OverridableProbe requires a focus variable")
+        elif probe_type != "total":
             return Immediate(
                 sel, intercept=self._make_emitter(sel), pass_info=True
             )
